@@ -9,6 +9,7 @@ import nbformat
 import nbdime.log
 from ..diff_format import (
     DiffOp, op_add, op_removerange, op_remove, op_patch, op_replace)
+from ..diffing.generic import strict_equal
 from ..patching import patch
 from ..utils import (
     r_is_int, star_path, join_path, is_prefix_array, find_shared_prefix)
@@ -196,7 +197,7 @@ class MergeDecisionBuilder(object):
             return None
 
         assert local_diff and remote_diff, 'onesided merges should not be conflicted'
-        assert local_diff != remote_diff, 'agreed merges should not be conflicted'
+        assert not strict_equal(local_diff, remote_diff), 'agreed merges should not be conflicted'
 
         # Allow strategies to defuse situation first
         action = None
@@ -243,7 +244,7 @@ class MergeDecisionBuilder(object):
         an earlier stage and will result in a regular conflict here.
         """
         assert local_diff and remote_diff, 'onesided merges should not be conflicted'
-        assert local_diff != remote_diff, 'agreed merges should not be conflicted'
+        assert not strict_equal(local_diff, remote_diff), 'agreed merges should not be conflicted'
 
         # Try to defuse situation with given strategy
         action = self.tryresolve(path, local_diff, remote_diff, strategy)
@@ -299,7 +300,7 @@ class MergeDecisionBuilder(object):
     def similar_insert(self, path, local_diff, remote_diff, insert_diff, strategy=None):
         """Same as `conflict`, but with marker `similar_insert``"""
         assert local_diff and remote_diff, 'onesided merges should not be conflicted'
-        assert local_diff != remote_diff, 'agreed merges should not be conflicted'
+        assert not strict_equal(local_diff, remote_diff), 'agreed merges should not be conflicted'
 
         # Try to defuse situation with given strategy
         action = self.tryresolve(path, local_diff, remote_diff, strategy)
